@@ -28,7 +28,8 @@ UNQUOTE = {
     "query": Q + "safely_unquote_query_item",
     "fragment": Q + "safely_unquote_fragment",
 }
-ALL_UNQUOTE = set(UNQUOTE.values())
+UNQUOTE_VALUE = Q + "safely_unquote_query_value"
+ALL_UNQUOTE = set(UNQUOTE.values()) | {UNQUOTE_VALUE}
 QUOTE = Q + "safely_quote"
 NEUTRAL_CALLS = {"builtins.str", "builtins.list", "builtins.tuple", "builtins.sorted", "builtins.next", "builtins.bool"}
 
@@ -377,7 +378,7 @@ def netloc_template(ctx, rule):
     for host, hexp in (("H", "H"), ("::1", "[::1]")):
         for u in ("U", None):
             for p in ("P", None):
-                for port in (8080, 80, 443, None):
+                for port in (8080, 80, 443, 0, None):
                     n += 1
                     exp = hexp
                     if u or p:
@@ -391,7 +392,7 @@ def netloc_template(ctx, rule):
                         return
                     ctx.ob(rule, "unsplit_netloc/(%s,%s,%s,%s)" % (u, p, host, port), got == exp,
                            "unsplit_netloc(%r, %r, %r, %r) gives %r, expected %r (RFC 3986 authority: [user[':'password]'@'] host [':'port], IPv6 literals bracketed)" % (u, p, host, port, got, exp), site,
-                           witness="http://%s%s" % ((":pw@" if not u and p else ""), ("[::1]" if host != "H" else "a.com") + (":%d/" % port if port else "/")), sample="(%s,%s,%s,%s) -> %r" % (u, p, host, port, got))
+                           witness="http://%s%s" % ((":pw@" if not u and p else ""), ("[::1]" if host != "H" else "a.com") + (":%d/" % port if port is not None else "/")), sample="(%s,%s,%s,%s) -> %r" % (u, p, host, port, got))
     ctx.require_instances(rule, n, 32, "presence patterns")
 
 
